@@ -65,6 +65,28 @@ type params struct {
 	df, th int
 	pool   []string
 	heads  int
+	// headStyle: 0 heads of one length; 1 heads of several lengths (a longer head may be the smaller string);
+	// 2 as 1, and the empty string is a head too
+	headStyle int
+}
+
+var varHeads = []string{"b", "ab", "a", "ba", "abc", "c", "aa", ""}
+
+func (p params) head(s *core.Src) string {
+	switch p.headStyle {
+	case 1:
+		return varHeads[s.Choose("head", minI(p.heads+2, 7))]
+	case 2:
+		return varHeads[1+s.Choose("head", 7)]
+	}
+	return fmt.Sprintf("h%d", s.Choose("head", p.heads))
+}
+
+func minI(a, b int) int {
+	if a < b {
+		return a
+	}
+	return b
 }
 
 func genParams(r *core.Run, maxPool int) params {
@@ -87,6 +109,7 @@ func genParams(r *core.Run, maxPool int) params {
 		p.th = []int{64, 128, 256, 512}[s.Choose("th", 4)]
 	}
 	p.heads = s.Range("heads", 2, 4)
+	p.headStyle = s.Weighted("headstyle", []int{5, 3, 2})
 	size := s.Range("poolsize", 3, maxPool)
 	switch s.Weighted("poolmode", []int{3, 4, 3, 3}) {
 	case 3: // boundary: ids crafted so that their hash sits exactly on (or next to) range bounds of this run's division
@@ -186,7 +209,7 @@ func freshFrom(p params, model map[string]string, r *core.Run, shuffle bool) ldi
 // mutate applies one random history operation; returns its kind.
 func (x *idx) mutate(r *core.Run, p params, tag string) string {
 	s := r.Src
-	head := func() string { return fmt.Sprintf("h%d", s.Choose("head", p.heads)) }
+	head := func() string { return p.head(s) }
 	pick := func() string { return p.pool[s.Choose("id", len(p.pool))] }
 	existing := func() (string, bool) {
 		if len(x.model) == 0 {
@@ -502,7 +525,7 @@ func runC07(r *core.Run) {
 	base := s.Choose("base", len(p.pool)+1)
 	for i := 0; i < base; i++ {
 		id := p.pool[s.Choose("id", len(p.pool))]
-		h := fmt.Sprintf("h%d", s.Choose("head", p.heads))
+		h := p.head(s)
 		a.d.Set(ldiff.Element{Id: id, Head: h})
 		a.model[id] = h
 		b.d.Set(ldiff.Element{Id: id, Head: h})
@@ -646,6 +669,19 @@ func compareIndexes(r *core.Run, p params, x, y ldiff.Diff, model map[string]str
 
 func runC08(r *core.Run) {
 	s := r.Src
+	// three legs: the index itself under histories; the space's head index beside its store; the key-value index
+	// beside its store
+	switch leg := s.Weighted("c08-leg", []int{6, 2, 2}); leg {
+	case 1:
+		r.SetCfg("leg", "head index over storage")
+		runC08Heads(r)
+		return
+	case 2:
+		r.SetCfg("leg", "key-value index over storage")
+		runC08Kv(r)
+		return
+	}
+	r.SetCfg("leg", "index histories")
 	p := genParams(r, maxPoolFor(r))
 	live := newIdx(p)
 	nops := s.Range("nops", 5, 120)
